@@ -12,7 +12,8 @@ def translators(repo):
     the equalities with Ex.assign / assignW / construct / polyToBool and the resolved-data checks (Proofs/ExprAstEq.lean, Properties/C07Ast.lean)
     are then re-checked by `lake build`."""
     out = {}
-    for script in ("gen_ops_ast.py", "gen_simd_ast.py", "gen_expr_ast.py"):     # the functors the evaluators call are regenerated first
+    # the functors the evaluators call, and expr::operator bool (whose definition the comparison shapes are bound to), are regenerated first
+    for script in ("gen_ops_ast.py", "gen_simd_ast.py", "gen_bool_ast.py", "gen_expr_ast.py"):
         r = cl.run(["python3", os.path.join(cl.HERE, script), "--repo", repo])
         info = {"ok": r.returncode == 0}
         if r.returncode != 0:
